@@ -222,25 +222,20 @@ theorem mapE_error_iff {α β ε} {f : α → Except ε β} {l : List α} :
         rw [hm] at this; simp at this
 
 theorem namedAnchor_error_iff (q : Q) (s : SrcAnchor) :
-    (∃ e, namedAnchor q s = .error e) ↔
-      s.name ≠ "" ∧ (s.idNoLib = true ∨ ∃ e, parseAnchor s.name.toList = .error e) := by
+    (∃ e, namedAnchor q s = .error e) ↔ s.name ≠ "" ∧ ∃ e, parseAnchor s.name.toList = .error e := by
   unfold namedAnchor
   by_cases hne : s.name = ""
   · simp [hne]
   · rw [if_neg hne]
-    by_cases hid : s.idNoLib = true
-    · simp [hid, hne]
-    · rw [if_neg hid]
-      cases hp : parseAnchor s.name.toList with
-      | error e' => simp [hne]
-      | ok p =>
-        simp only [hne, hid, ne_eq, not_false_eq_true, reduceCtorEq, exists_false, or_false, and_false, iff_false,
-          not_exists]
-        intro e
-        split <;> simp
+    cases hp : parseAnchor s.name.toList with
+    | error e' => simp [hne]
+    | ok p =>
+      simp only [hne, ne_eq, not_false_eq_true, reduceCtorEq, exists_false, and_false, iff_false, not_exists]
+      intro e
+      split <;> simp
 
 theorem glyphAnchors_error_iff (q : Q) (srcs : List SrcAnchor) :
-    (∃ e, glyphAnchors q srcs = .error e) ↔ ∃ s ∈ srcs, s.name ≠ "" ∧ (s.idNoLib = true ∨ ∃ e, parseAnchor s.name.toList = .error e) := by
+    (∃ e, glyphAnchors q srcs = .error e) ↔ ∃ s ∈ srcs, s.name ≠ "" ∧ ∃ e, parseAnchor s.name.toList = .error e := by
   have key : (∃ e, glyphAnchors q srcs = .error e) ↔ ∃ e, mapE (namedAnchor q) srcs = .error e := by
     unfold glyphAnchors
     cases mapE (namedAnchor q) srcs with
@@ -255,8 +250,7 @@ theorem glyphAnchors_error_iff (q : Q) (srcs : List SrcAnchor) :
     passes the GDEF filter carries a non-empty anchor name that parseAnchorName / NamedAnchor reject
     (`_`, `_x_1`, `x_0`, `*`, …: see parse_numbered_mark_error, parse_bare_prefix_error, parse_zero_error). -/
 theorem C06_error (i : Input) : (∃ e, model i = .error e) ↔
-    ∃ g ∈ i.glyphs, included i g.name = true ∧ ∃ s ∈ g.anchors, s.name ≠ "" ∧
-      (s.idNoLib = true ∨ ∃ e, parseAnchor s.name.toList = .error e) := by
+    ∃ g ∈ i.glyphs, included i g.name = true ∧ ∃ s ∈ g.anchors, s.name ≠ "" ∧ ∃ e, parseAnchor s.name.toList = .error e := by
   have hmodel : (∃ e, model i = .error e) ↔ ∃ e, anchorLists i = .error e := by
     unfold model
     cases anchorLists i with
@@ -299,6 +293,22 @@ theorem C06_candidate_order_partial (km : List (String × String)) :
       singleGroups km = ks.filterMap (fun k => (alookup k km).map (fun c => [c])) ∧
       ∀ grp ∈ singleGroups km, ∃ c, grp = [c] :=
   ⟨sortStr (km.map (·.1)), sortStr_sorted _, sortStr_perm _, rfl, fun _ h => mem_singleGroups h⟩
+
+/-- **C06_objectLibs_old_counterexample** (repaired defect, kept as a labelled counterexample over the OLD loop body
+    `namedAnchorOld`): before the repair of `_getAnchorLists` an anchor with an identifier on a glyph without
+    "public.objectLibs" made the writer raise KeyError whatever its name — here a perfectly ordinary `top`; the current loop body
+    (`namedAnchor`) treats it as an anchor without lib data, and agrees with the old one on every anchor that has no such
+    identifier. -/
+theorem C06_objectLibs_old_counterexample :
+    namedAnchorOld 1 { name := "top", x := 100, y := 500, idNoLib := true } = .error .keyErrorObjectLibs ∧
+    (∃ a, namedAnchor 1 { name := "top", x := 100, y := 500, idNoLib := true } = .ok (some a) ∧ a.key = "top" ∧ a.ctx = none) ∧
+    ∀ q s, s.idNoLib = false → namedAnchorOld q s = namedAnchor q s := by
+  refine ⟨by rfl, ⟨_, by rfl, by rfl, by rfl⟩, ?_⟩
+  intro q s h
+  unfold namedAnchorOld
+  by_cases hn : s.name = ""
+  · simp [hn, namedAnchor]
+  · simp [hn, h]
 
 /-! ### graph colouring (groupMarkClasses mode) -/
 
@@ -499,8 +509,7 @@ theorem C06_ctx_error (km : List (String × String)) (feat pre : String) (kind :
           ⟨fun h => by rw [hr] at h; simp at h, fun h => by rcases h.2 with h | h; exact absurd h hk; simp at h⟩, ?_⟩
         intro e he; rw [hr] at he; simp at he
 
-/-- the writer as a whole raises iff the anchor lists raise (malformed anchor name, or an anchor identifier on a glyph
-    without "public.objectLibs") or the contextual part does -/
+/-- the writer as a whole raises iff the anchor lists raise (malformed anchor name: C06_error) or the contextual part does -/
 theorem C06_modelX_error (i : Input) : (∃ e, modelX i = .error e) ↔
     (∃ e, model i = .error e) ∨ ∃ al, anchorLists i = .ok al ∧ ∃ e, ctxFeatures i al = .error e := by
   unfold modelX model
@@ -533,13 +542,11 @@ theorem exampleFont_ok : ∃ P, model exampleFont = .ok P := by
   | ok P => exact ⟨P, rfl⟩
   | error e =>
     exfalso
-    obtain ⟨g, hg, _, s, hs, _, hbad⟩ := (C06_error exampleFont).mp ⟨e, h⟩
-    have hall : exampleFont.glyphs.all (fun g => g.anchors.all (fun s =>
-        !s.idNoLib && (parseAnchor s.name.toList).toBool)) = true := by decide
+    obtain ⟨g, hg, _, s, hs, _, e', he⟩ := (C06_error exampleFont).mp ⟨e, h⟩
+    have hall : exampleFont.glyphs.all (fun g => g.anchors.all (fun s => (parseAnchor s.name.toList).toBool)) = true := by
+      decide
     have := all_eq_true.mp (all_eq_true.mp hall g hg) s hs
-    rcases hbad with hid | ⟨e', he⟩
-    · rw [hid] at this; simp at this
-    · rw [he] at this; simp [Except.toBool] at this
+    rw [he] at this; simp [Except.toBool] at this
 
 /-- C06_complete + C06_candidate + C06_sound determine the attachments of the example: base (through abvm), ligature
     component 2 (511 − 20 = 491 after rounding 510.5 up and 5.5 up to 6), mark-to-mark, and nothing for a pair without
